@@ -2,14 +2,16 @@ module github.com/0xReLogic/Helios/verifharness
 
 go 1.26
 
-require github.com/0xReLogic/Helios v0.0.0
+require (
+	github.com/0xReLogic/Helios v0.0.0
+	gopkg.in/yaml.v3 v3.0.1
+)
 
 require (
 	github.com/mattn/go-colorable v0.1.13 // indirect
 	github.com/mattn/go-isatty v0.0.19 // indirect
 	github.com/rs/zerolog v1.34.0 // indirect
 	golang.org/x/sys v0.12.0 // indirect
-	gopkg.in/yaml.v3 v3.0.1 // indirect
 )
 
 replace github.com/0xReLogic/Helios => /repo
